@@ -87,7 +87,7 @@ def run(ctx):
         cases.append({"e": ["pmulg", sym, g], "fam": fam, "malformed": False})
     if ctx.replay is not None and ctx.replay.get("site") == "history":
         cases = [ctx.replay["case"]]
-    impl = run_impl([{"fn": "gexpr", "e": exprs.g_json(c["e"])} for c in cases])
+    impl = run_impl([{"fn": "gexpr", "e": exprs.g_json(c["e"]), "unitarity": True} for c in cases])
     lines = []
     for c in cases:
         lines.append("(geval %s)" % exprs.g_sexp(c["e"]))
@@ -124,6 +124,13 @@ def run(ctx):
                 ni = fr(ro["norm"])
                 if abs(ni * ni - n2) > Fraction(1, 10 ** 9) * max(n2, Fraction(1, 10 ** 300)) + 64 * (nop + 2) * U * sum(v * v for v in list(ai.values()) + list(ax.values())):
                     ctx.fail("history", c, f"norm**2 = {float(ni*ni)!r} but the exact value is {float(n2)!r}")
+                elif "unitarity" in ro and len(minfo) > 2 and minfo[2] != "ERR":
+                    # unitarity = || 1 - (g ~g).I ||, also for elements whose two parts are stored with different numbers of coefficients
+                    u2 = Fraction(minfo[2])
+                    ui = fr(ro["unitarity"])
+                    S = 1 + sum(v * v for v in list(ai.values()) + list(ax.values()))
+                    if abs(ui * ui - u2) > Fraction(1, 10 ** 9) * u2 + 256 * (nop + 4) * U * S * S:
+                        ctx.fail("history", c, f"unitarity**2 = {float(ui*ui)!r} but the exact value of ||1 - pnorm||^2 is {float(u2)!r}")
     # in-Coq slice
     sl = [i for i, c in enumerate(cases) if exprs.nops(c["e"]) <= 6][: (25 if quick else 100)]
     terms = []
